@@ -24,6 +24,8 @@ def run_history(kind, data, ops, hist, use_path, tmpdir):
     if use_path:
         fd, path = tempfile.mkstemp(suffix='.docx', dir=tmpdir); os.write(fd, data); os.close(fd)
     src_ = path if use_path else io.BytesIO(data)
+    import gc
+    gc.collect(); fds_before = life.open_fds(); del life.STRAY[:]
     obj = life.make(kind, src_)
     rd = life.reader_of(kind, obj)
     out = []; problems = []
@@ -37,7 +39,13 @@ def run_history(kind, data, ops, hist, use_path, tmpdir):
         return orig_init(self, file, *a, **k)
     zipfile.ZipFile.__init__ = spy_init
     try:
-        return _run_history(kind, ops, names, hist, obj, rd, out, problems, closed, path)
+        res = _run_history(kind, ops, names, hist, obj, rd, out, problems, closed, path)
+        # no handle opened by the library is left open (whatever it points to), nothing is left beside the target of a save
+        del obj, rd; gc.collect()
+        leaked = {k: v for k, v in life.open_fds().items() if k not in fds_before and not v.startswith('/proc/')}
+        if leaked: problems.append('descriptor(s) left open after the object was closed: ' + ', '.join(sorted(os.path.basename(v) if '.tmp' not in v else '*.tmp' for v in leaked.values()))[:120])
+        if life.STRAY: problems.append('file(s) left beside the target of save: ' + ', '.join('*' + os.path.splitext(x)[1] for x in life.STRAY)[:80])
+        return res
     finally:
         zipfile.ZipFile.__init__ = orig_init
 
